@@ -12,7 +12,13 @@ CONSTANTS
   FBKinds = {"ok", "openerr", "brk", "drop", "empty", "extra", "reorder"}
   MaxFaulty = 9
   HintKeyed = FALSE
+  Shuffles = {FALSE, TRUE}
+  ShardReps = 0
+  ShardProcs = 0
+  ShardFlips = 0
+  InPlace = FALSE
 INVARIANT Honest
+INVARIANT OnlyWhoAnswers
 INVARIANT ColdWhenOld
 INVARIANT AllUpIsComplete
 INVARIANT FetchIsGreedy
